@@ -146,18 +146,22 @@ fn spell(t: &T, sp: Sp, r: &mut Rng) -> String {
         }
         T::Q(b) => {
             let (a, p, o) = (spell(&b.0, sp, r), spell(&b.1, sp, r), spell(&b.2, sp, r));
-            match sp {
-                Sp::Compact => format!("<<{} {} {}>>", a, p, o),
-                Sp::Ws => {
-                    let mut gap = |r: &mut Rng, min: usize| -> String {
-                        let n = r.range(min, 3);
-                        (0..n).map(|_| if r.chance(1, 4) { '\t' } else { ' ' }).collect()
-                    };
-                    format!("{}<<{}{}{}{}{}{}{}>>{}", gap(r, 0), gap(r, 1), a, gap(r, 1), p, gap(r, 1), o, gap(r, 1), gap(r, 0))
-                }
-                _ => format!("<< {} {} {} >>", a, p, o),
-            }
+            compose(sp, &a, &p, &o, r)
         }
+    }
+}
+
+fn compose(sp: Sp, a: &str, p: &str, o: &str, r: &mut Rng) -> String {
+    match sp {
+        Sp::Compact => format!("<<{} {} {}>>", a, p, o),
+        Sp::Ws => {
+            let gap = |r: &mut Rng, min: usize| -> String {
+                let n = r.range(min, 3);
+                (0..n).map(|_| if r.chance(1, 4) { '\t' } else { ' ' }).collect()
+            };
+            format!("{}<<{}{}{}{}{}{}{}>>{}", gap(r, 0), gap(r, 1), a, gap(r, 1), p, gap(r, 1), o, gap(r, 1), gap(r, 0))
+        }
+        _ => format!("<< {} {} {} >>", a, p, o),
     }
 }
 
@@ -338,7 +342,7 @@ fn run_dict_case(r: &mut Rng, thorough: bool) -> Result<(Finds, DictStats, u64),
                 }
                 1 => {
                     // QuotedTripleStore::encode
-                    let mut comp = |r: &mut Rng, sh: &DictShadow| -> u32 {
+                    let comp = |r: &mut Rng, sh: &DictShadow| -> u32 {
                         match r.weighted(&[50, 35, 15]) {
                             0 if !sh.plain_ids.is_empty() => *r.pick(&sh.plain_ids),
                             1 if !sh.quoted_ids.is_empty() => *r.pick(&sh.quoted_ids),
@@ -504,7 +508,8 @@ fn gen_pool(r: &mut Rng, max_depth: usize, tricky: bool) -> Pool {
     }
     if tricky {
         for _ in 0..r.range(0, 4) {
-            lits.push(T::p(r.pick(&TRICKY_LITS)));
+            let w: &str = TRICKY_LITS[r.below(TRICKY_LITS.len())];
+            lits.push(T::p(w));
         }
     }
     lits.sort();
@@ -594,11 +599,24 @@ struct StarStats {
 struct StarShadow {
     fwd: BTreeMap<T, u32>,
     rev: HashMap<u32, T>,
+    /// the (term, spelling) of the encode_term_star call at which the first finding appeared
+    culprit: Option<(T, Sp)>,
 }
 
 impl StarShadow {
     /// register (term,id) and, through the store, every sub-term the engine encoded with it
     fn observe(&mut self, db: &SparqlDatabase, t: &T, id: u32, sp: Sp, f: &mut Finds, trace: &[String]) -> bool {
+        let n0 = f.0.len();
+        let fresh = self.observe_inner(db, t, id, sp, f, trace);
+        if f.0.len() > n0 && self.culprit.is_none() {
+            self.culprit = Some((t.clone(), sp));
+        }
+        fresh
+    }
+    fn observe_inner(&mut self, db: &SparqlDatabase, t: &T, id: u32, sp: Sp, f: &mut Finds, trace: &[String]) -> bool {
+        if !f.0.is_empty() {
+            return false; // the state is already off: later observations would only echo it
+        }
         let mut fresh = false;
         match self.fwd.get(t) {
             Some(&old) => {
@@ -636,9 +654,9 @@ impl StarShadow {
             let comps = db.quoted_triple_store.read().unwrap().decode(id);
             if let Some((s, p, o)) = comps {
                 if fresh {
-                    self.observe(db, &b.0, s, sp, f, trace);
-                    self.observe(db, &b.1, p, sp, f, trace);
-                    self.observe(db, &b.2, o, sp, f, trace);
+                    self.observe_inner(db, &b.0, s, sp, f, trace);
+                    self.observe_inner(db, &b.1, p, sp, f, trace);
+                    self.observe_inner(db, &b.2, o, sp, f, trace);
                 }
             }
         }
@@ -668,8 +686,9 @@ fn star_full_check(db: &SparqlDatabase, sh: &StarShadow, f: &mut Finds, trace: &
 
 /// spellings whose treatment is documented: canonical N-Triples-star; the others are
 /// accepted inputs of the same function ("edge": a deviation gets its own signature)
-fn pick_spelling(r: &mut Rng) -> Sp {
-    match r.weighted(&[50, 20, 12, 10, 8]) {
+fn pick_spelling(r: &mut Rng, edge: bool) -> Sp {
+    let w: [usize; 5] = if edge { [40, 15, 20, 17, 8] } else { [55, 30, 0, 0, 15] };
+    match r.weighted(&w) {
         0 => Sp::Canon,
         1 => Sp::Ws,
         2 => Sp::Bare,
@@ -678,7 +697,7 @@ fn pick_spelling(r: &mut Rng) -> Sp {
     }
 }
 
-fn run_star_case(r: &mut Rng, thorough: bool) -> Result<(Finds, StarStats, u64), String> {
+fn run_star_case(r: &mut Rng, thorough: bool) -> Result<(Finds, StarStats, u64, Option<(T, Sp)>), String> {
     let pool = gen_pool(r, 3, true);
     let n_ops = if thorough && r.chance(1, 20) { r.range(200, 1500) } else { r.range(20, 160) };
     let r2 = r.clone();
@@ -688,9 +707,16 @@ fn run_star_case(r: &mut Rng, thorough: bool) -> Result<(Finds, StarStats, u64),
         let mut st = StarStats { encodes: 0, new_terms: 0, repeats: 0, decodes: 0, rechecked: 0, max_depth: 0, by_spelling: BTreeMap::new(), by_depth: [0; 4], loader_calls: 0 };
         let mut trace: Vec<String> = vec![];
         let mut db = SparqlDatabase::new();
-        let mut sh = StarShadow { fwd: BTreeMap::new(), rev: HashMap::new() };
+        let mut sh = StarShadow { fwd: BTreeMap::new(), rev: HashMap::new(), culprit: None };
         let q_rate = *r.pick(&[20usize, 50, 80]);
+        // half of the sequences keep to the N-Triples-star spellings, so that a defect in the
+        // treatment of bare / compact input cannot cut the core workload short
+        let edge = r.coin();
+        *st.by_spelling.entry(if edge { "sequences_with_bare_and_compact_input" } else { "sequences_with_ntriples_star_input_only" }).or_insert(0) += 1;
         for _ in 0..n_ops {
+            if !f.0.is_empty() {
+                break; // one defect per sequence: everything after it would echo the broken state
+            }
             match r.weighted(&[64, 10, 5, 10, 4, 7]) {
                 0 => {
                     let t = if !sh.fwd.is_empty() && r.chance(1, 4) {
@@ -699,7 +725,7 @@ fn run_star_case(r: &mut Rng, thorough: bool) -> Result<(Finds, StarStats, u64),
                     } else {
                         pool.any(&mut r, q_rate)
                     };
-                    let sp = pick_spelling(&mut r);
+                    let sp = pick_spelling(&mut r, edge);
                     let text = spell(&t, sp, &mut r);
                     let id = db.encode_term_star(&text);
                     trace.push(format!("encode_term_star({:?}) = {:#x}", text, id));
@@ -780,6 +806,11 @@ fn run_star_case(r: &mut Rng, thorough: bool) -> Result<(Finds, StarStats, u64),
                 }
             }
         }
+        if !f.0.is_empty() {
+            f.0.truncate(1);
+            let h = hash_str(&trace.join("\n"));
+            return (f, st, h, sh.culprit.clone());
+        }
         st.rechecked += star_full_check(&db, &sh, &mut f, &trace, &mut r);
         // the dictionary must not know more plain terms than the plain sub-terms encoded,
         // the store not more quoted triples than the quoted sub-terms encoded
@@ -792,8 +823,72 @@ fn run_star_case(r: &mut Rng, thorough: bool) -> Result<(Finds, StarStats, u64),
             f.add("terms_encoded_that_were_never_given", json!({"plain_terms_given": n_plain, "dictionary_size": dl, "quoted_terms_given": n_q, "store_size": ql, "unexpected_plain_terms": extra, "trace_tail": tail(&trace, 20)}));
         }
         let h = hash_str(&trace.join("\n"));
-        (f, st, h)
+        (f, st, h, None)
     })
+}
+
+/// What does one call on a fresh database make of this spelling? None = the right term.
+fn encodes_wrong(t: &T, sp: Sp) -> Option<String> {
+    let t2 = t.clone();
+    match guard(move || {
+        let db = SparqlDatabase::new();
+        let id = db.encode_term_star(&spell(&t2, sp, &mut Rng::new(7)));
+        match db_tree(&db, id) {
+            Ok(tr) if tr == t2 && db.decode_any(id).as_deref() == Some(t2.render().as_str()) => None,
+            Ok(tr) => Some(format!("id {:#x} = {}", id, tr.render())),
+            Err(e) => Some(e),
+        }
+    }) {
+        Ok(x) => x,
+        Err(e) => Some(format!("panic: {}", e)),
+    }
+}
+
+/// Establish the cause of a spelling-dependent failure by restricted re-runs:
+/// single call on a fresh database, smallest failing sub-term, the other spellings of that
+/// sub-term, the sub-term without angle brackets inside literals, and a direct call of the
+/// public splitter on the sub-term's content.
+fn diagnose_star(t: &T, sp: Sp) -> (Value, Value) {
+    if encodes_wrong(t, sp).is_none() {
+        return (json!({"cause": "not_reproduced_by_one_call_on_a_fresh_database"}), json!({}));
+    }
+    let (mut pl, mut qs) = (BTreeSet::new(), BTreeSet::new());
+    t.collect(&mut pl, &mut qs);
+    let mut subs: Vec<T> = qs.into_iter().collect();
+    subs.sort_by_key(|x| (x.render().len(), x.clone()));
+    let m = subs.iter().find(|x| encodes_wrong(x, sp).is_some()).cloned().unwrap_or_else(|| t.clone());
+    let got = encodes_wrong(&m, sp);
+    let no_angle = m.map_plain(&|x: &T| match x {
+        T::P(s) if !is_iri(s) && !s.starts_with("_:") && (s.contains('<') || s.contains('>')) => Some(T::p("w9")),
+        _ => None,
+    });
+    let needs_lit = no_angle != m && encodes_wrong(&no_angle, sp).is_none();
+    let ok_spellings: Vec<&str> = [Sp::Canon, Sp::Ws, Sp::Bare, Sp::Compact, Sp::Uesc].iter().filter(|s| encodes_wrong(&m, **s).is_none()).map(|s| s.name()).collect();
+    let mut split_wrong = false;
+    let mut split_detail = json!(null);
+    if let T::Q(b) = &m {
+        let mut r = Rng::new(7);
+        let (a, p, o) = (spell(&b.0, sp, &mut r), spell(&b.1, sp, &mut r), spell(&b.2, sp, &mut r));
+        let full = compose(sp, &a, &p, &o, &mut r);
+        let tr = full.trim();
+        let content = tr[2..tr.len() - 2].trim().to_string();
+        let parts = guard(|| SparqlDatabase::split_quoted_triple_content(&content));
+        match parts {
+            Ok((x, y, z)) => {
+                if (x.as_str(), y.as_str(), z.as_str()) != (a.as_str(), p.as_str(), o.as_str()) {
+                    split_wrong = true;
+                    split_detail = json!({"content": content, "expected_parts": [a, p, o], "split_quoted_triple_content_returns": [x, y, z]});
+                }
+            }
+            Err(e) => {
+                split_wrong = true;
+                split_detail = json!({"content": content, "panic": e});
+            }
+        }
+    }
+    let sig = json!({"cause": if split_wrong { "split_quoted_triple_content_splits_elsewhere" } else { "other" }, "needs_literal_with_angle_bracket": needs_lit});
+    let det = json!({"minimal_term": m.render(), "minimal_spelling": spell(&m, sp, &mut Rng::new(7)), "fresh_database_yields": got, "spellings_of_the_minimal_term_that_work": ok_spellings, "splitter": split_detail});
+    (sig, det)
 }
 
 // ---------------------------------------------------------------------------------------
@@ -904,7 +999,7 @@ fn nq_ok(t: &T) -> bool {
 }
 
 fn apply_op(db: &mut SparqlDatabase, op: &Op, r: &mut Rng) {
-    let mut sp = |r: &mut Rng| if r.chance(3, 4) { Sp::Canon } else { Sp::Ws };
+    let sp = |r: &mut Rng| if r.chance(3, 4) { Sp::Canon } else { Sp::Ws };
     match op {
         Op::Pre(t) => {
             let k = sp(r);
@@ -1066,7 +1161,7 @@ fn observe(raw: &Raw, db: Option<&SparqlDatabase>, who: &str, f: &mut Finds) -> 
             Err(e) => undec.push(e),
         }
     }
-    let mut dec = |id: u32, undec: &mut Vec<String>, f: &mut Finds| -> Option<T> {
+    let dec = |id: u32, undec: &mut Vec<String>, f: &mut Finds| -> Option<T> {
         match tree_of(d, q, id, 64) {
             Ok(t) => {
                 if let Some(db) = db {
@@ -1265,8 +1360,7 @@ fn raw_changes(before: &Raw, after: &Raw) -> Vec<&'static str> {
 
 fn evaluate(c: &Case, mut stats: Option<&mut UStats>) -> Finds {
     let c2 = c.clone();
-    let mut st = UStats::default();
-    let res = guard(move || {
+        let res = guard(move || {
         let c = c2;
         let mut f = Finds::default();
         let mut st = UStats::default();
@@ -1406,9 +1500,8 @@ fn evaluate(c: &Case, mut stats: Option<&mut UStats>) -> Finds {
     });
     match res {
         Ok((f, s)) => {
-            st = s;
             if let Some(x) = stats.as_deref_mut() {
-                *x = st;
+                *x = s;
             }
             f
         }
@@ -1627,7 +1720,8 @@ fn script_of_model(m: &Model, r: &mut Rng) -> Vec<Op> {
 }
 
 fn gen_union_case(r: &mut Rng, thorough: bool) -> (Case, &'static str) {
-    let pool = gen_pool(r, 3, r.chance(1, 2));
+    let tricky = r.chance(1, 2);
+    let pool = gen_pool(r, 3, tricky);
     let big = thorough && r.chance(1, 25);
     let n = |r: &mut Rng| if big { r.range(60, 400) } else { r.range(1, 28) };
     let (na, nb) = (n(r), n(r));
@@ -1779,4 +1873,206 @@ fn run_boundary_case(r: &mut Rng, ctx: &mut Ctx) {
             ctx.violation(json!({"kind": "quoted_id_changed_meaning_after_later_encodes", "api": "QuotedTripleStore::decode", "where": "range_limit"}), json!({"id": first}));
         }
     }
+}
+
+// ---------------------------------------------------------------------------------------
+
+fn emit_simple(ctx: &mut Ctx, f: Finds, extra: &[(&str, Value)]) {
+    for fi in f.0 {
+        let mut sig = json!({"kind": fi.kind});
+        if let Some(api) = fi.detail.get("api") {
+            sig["api"] = api.clone();
+        }
+        if let Some(sp) = fi.detail.get("spelling") {
+            sig["spelling"] = sp.clone();
+        }
+        let mut d = fi.detail.clone();
+        for (k, v) in extra {
+            d[*k] = v.clone();
+        }
+        ctx.violation(sig, d);
+    }
+}
+
+/// order in which simultaneous findings are reported (the first one names the violation)
+const PRIORITY: [&str; 12] = ["panic", "load_", "modified", "shares_state", "not_a_bijection", "undecodable", "two_id", "quads", "catalog", "seed", "quoted_terms", "dictionary_terms"];
+
+fn primary(f: &Finds) -> &Finding {
+    for p in PRIORITY {
+        if let Some(x) = f.0.iter().find(|x| x.kind.contains(p)) {
+            return x;
+        }
+    }
+    &f.0[0]
+}
+
+fn run(ctx: &mut Ctx) {
+    let thorough = ctx.thorough();
+
+    // ---- dict
+    ctx.phase("dict", ctx.by_tier(12_000, 400_000));
+    while let Some(k) = ctx.next_case() {
+        if !ctx.within(0.25) {
+            break;
+        }
+        let mut r = ctx.rng(k);
+        match run_dict_case(&mut r, thorough) {
+            Ok((f, st, h)) => {
+                ctx.add_evals(st.calls);
+                ctx.count("dict.encode.new_term", st.new_plain);
+                ctx.count("dict.encode.repeated_term", st.rep_plain);
+                ctx.count("dict.quoted_encode.new_triple", st.new_q);
+                ctx.count("dict.quoted_encode.repeated_triple", st.rep_q);
+                ctx.count("dict.decode_known_id", st.decodes);
+                ctx.count("dict.decode_never_issued_id", st.unknown_decodes);
+                ctx.count("dict.decode_term_calls", st.decode_terms);
+                ctx.count("dict.ids_reverified_after_later_encodes", st.rechecked);
+                ctx.max("dict.max_quoted_nesting", st.max_depth as u64);
+                ctx.max("dict.max_terms_in_one_dictionary", st.new_plain);
+                if st.new_plain >= 5 && st.rep_plain >= 5 && st.max_depth >= 2 {
+                    ctx.nontrivial(h);
+                }
+                if ctx.wants_sample() && st.max_depth >= 2 {
+                    ctx.sample(json!({"calls": st.calls, "new_terms": st.new_plain, "repeated_terms": st.rep_plain, "new_quoted": st.new_q, "repeated_quoted": st.rep_q, "max_nesting": st.max_depth, "ids_reverified": st.rechecked}));
+                }
+                emit_simple(ctx, f, &[]);
+            }
+            Err(e) => ctx.violation(json!({"kind": "panic", "phase": "dict", "site": panic_site(&e)}), json!({"panic": e})),
+        }
+    }
+
+    // ---- star
+    ctx.phase("star", ctx.by_tier(14_000, 400_000));
+    while let Some(k) = ctx.next_case() {
+        if !ctx.within(0.5) {
+            break;
+        }
+        let mut r = ctx.rng(k);
+        match run_star_case(&mut r, thorough) {
+            Ok((f, st, h, culprit)) => {
+                ctx.add_evals(st.encodes + st.loader_calls);
+                ctx.count("star.encode_term_star.new_term", st.new_terms);
+                ctx.count("star.encode_term_star.repeated_term", st.repeats);
+                ctx.count("star.decode_any_known_id", st.decodes);
+                ctx.count("star.loader_calls", st.loader_calls);
+                ctx.count("star.ids_reverified_after_later_encodes", st.rechecked);
+                for (s, n) in &st.by_spelling {
+                    ctx.count(&format!("star.spelling.{}", s), *n);
+                }
+                for (d, n) in st.by_depth.iter().enumerate() {
+                    ctx.count(&format!("star.encoded_terms_of_nesting_depth.{}", d), *n);
+                }
+                ctx.max("star.max_nesting", st.max_depth as u64);
+                if st.new_terms >= 5 && st.repeats >= 5 && st.max_depth >= 2 {
+                    ctx.nontrivial(h);
+                }
+                if ctx.wants_sample() && st.max_depth >= 2 {
+                    ctx.sample(json!({"encodes": st.encodes, "new_terms": st.new_terms, "repeats": st.repeats, "max_nesting": st.max_depth, "spellings": st.by_spelling}));
+                }
+                match (&culprit, f.0.first()) {
+                    (Some((t, sp)), Some(first)) => {
+                        let (dsig, ddet) = diagnose_star(t, *sp);
+                        let reproduced = dsig["cause"] != "not_reproduced_by_one_call_on_a_fresh_database";
+                        let mut sig = json!({"kind": if reproduced { "spelling_encodes_to_another_term" } else { first.kind.as_str() }, "api": "encode_term_star", "spelling": sp.name()});
+                        for (k, v) in dsig.as_object().unwrap() {
+                            sig[k] = v.clone();
+                        }
+                        ctx.count(&format!("star.defect_observations.{}", sp.name()), 1);
+                        ctx.violation(sig, json!({"diagnosis": ddet, "first_observation": {"kind": first.kind, "detail": first.detail}}));
+                    }
+                    _ => emit_simple(ctx, f, &[]),
+                }
+            }
+            Err(e) => ctx.violation(json!({"kind": "panic", "phase": "star", "site": panic_site(&e)}), json!({"panic": e})),
+        }
+    }
+
+    // ---- boundary
+    ctx.phase("boundary", ctx.by_tier(64, 640));
+    while let Some(k) = ctx.next_case() {
+        let mut r = ctx.rng(k);
+        run_boundary_case(&mut r, ctx);
+    }
+
+    // ---- union
+    ctx.phase("union", ctx.by_tier(24_000, 600_000));
+    while let Some(k) = ctx.next_case() {
+        let mut r = ctx.rng(k);
+        let (case, shape) = gen_union_case(&mut r, thorough);
+        let mut st = UStats::default();
+        let f = evaluate(&case, Some(&mut st));
+        ctx.add_evals(st.unions);
+        ctx.count(&format!("union.shape.{}", shape), 1);
+        ctx.count("union.steps", st.unions);
+        ctx.count("union.steps_with_clashing_ids_used_on_both_sides", st.nontrivial_steps);
+        ctx.count("union.clashing_plain_ids", st.clash_plain);
+        ctx.count("union.clashing_quoted_ids", st.clash_quoted);
+        ctx.count("union.clashing_ids_referenced_by_both_operands", st.clash_used_both);
+        ctx.count("union.terms_with_different_ids_in_the_operands", st.moved_terms);
+        ctx.count("union.operand_quads", st.quads_in);
+        ctx.count("union.result_quads", st.quads_out);
+        ctx.count("union.quads_present_in_both_operands", st.shared_quads);
+        ctx.count("union.empty_named_graphs_in_operands", st.empty_graphs_in);
+        ctx.count("union.operand_seeds", st.seeds_in);
+        ctx.count("union.seed_conflicts", st.seed_conflicts);
+        ctx.count("union.seed_conflicts.right_value_kept", st.seed_conflict_right_wins);
+        ctx.count("union.seed_conflicts.left_value_kept", st.seed_conflict_left_wins);
+        ctx.count("union.operand_quoted_terms", st.quoted_in);
+        ctx.count("union.unreferenced_terms_in_operands", st.unreferenced_terms);
+        ctx.count("union.results_extended_with_new_terms", st.extended);
+        ctx.count("union.steps_with_a_result_as_operand", st.result_as_input);
+        ctx.count("union.steps_with_an_empty_operand", st.empty_operand);
+        ctx.max("union.max_quoted_nesting", st.max_depth);
+        if st.nontrivial_steps > 0 {
+            ctx.nontrivial(hash_str(&case_json(&case).to_string()));
+        }
+        if ctx.wants_sample() && st.nontrivial_steps > 0 && st.max_depth >= 2 {
+            ctx.sample(json!({"shape": shape, "case": case_json(&case), "stats": format!("{:?}", st)}));
+        }
+        if f.0.is_empty() {
+            continue;
+        }
+        let first = primary(&f).clone();
+        let kind = first.kind.clone();
+        let all: Vec<String> = f.0.iter().map(|x| x.kind.clone()).collect();
+        if kind.starts_with("load_") || kind.starts_with("panic_while") {
+            // the operands are not what the build script says: a writer (not union) is off
+            ctx.violation(json!({"kind": kind, "stage": "building_operands"}), json!({"finding": first.detail, "all_findings": all, "case": case_json(&case)}));
+            continue;
+        }
+        let mut budget = 400usize;
+        let small = shrink(&case, &kind, &mut budget);
+        let fs = evaluate(&small, None);
+        let d = fs.0.iter().find(|x| x.kind == kind).map(|x| x.detail.clone()).unwrap_or(first.detail.clone());
+        let mut needs: Vec<&str> = vec![];
+        if !still(&aligned_ids(&small), &kind) {
+            needs.push("clashing_ids");
+        }
+        if !still(&flatten_quoted(&small), &kind) {
+            needs.push("quoted_terms");
+        }
+        if !still(&default_only(&small), &kind) {
+            needs.push("named_graphs");
+        }
+        if !still(&no_seeds(&small), &kind) {
+            needs.push("probability_seeds");
+        }
+        ctx.violation(json!({"kind": kind, "needs": needs}), json!({"finding": d, "all_findings_on_the_original_case": all, "minimal_case": case_json(&small), "original_case": case_json(&case), "shape": shape}));
+    }
+}
+
+fn main() {
+    let mut spec = Spec::new("C15", "exploration", RULE);
+    spec.assumptions = &[
+        "M-TERM: the store is untyped; a term is its lexical value (`<http://a>`, bare `http://a` and `\"http://a\"` are one term, language tags / datatypes are outside the fragment); quoted terms are trees over such values",
+        "spellings given to encode_term_star: canonical N-Triples-star (`<< <s> <p> \"o\" >>`), the same with extra blanks/tabs, bare IRIs and simple words, compact `<<s p o>>`, \\uXXXX escapes; subjects of quoted triples are IRIs, blank-node labels or quoted triples, predicates IRIs (1 in 25 quoted), literals only as objects",
+        "blank-node labels are plain terms: the union is the set union of the lexical datasets, not an RDF merge",
+        "seeds of one triple present in both operands with different values: either value is accepted (counted, with which side was kept)",
+        "components in the quoted range given to QuotedTripleStore::encode are ids the store handed out before (a never-issued quoted id as component can denote a cycle)",
+        "a panic that refuses to hand out an id beyond the end of a range is accepted (counted under boundary.*); the harness builds with overflow checks",
+        "the operands of a union are built through add_quad / add_quad_parts / add_triple_parts / add_tagged_triple / parse_nquads_and_add (IRIs and simple words only) / create_graph / delete_quad; an operand that does not match its build script is reported as building_operands, not as a union failure",
+    ];
+    spec.quick_budget_s = 40;
+    spec.thorough_budget_s = 600;
+    kvcore::run(spec, run);
 }
